@@ -117,7 +117,9 @@ def run_shard(ctx, drv, name, scns, seed, random=0, keep=True):
     sf = ctx.path("scn_%s.jsonl" % name)
     vlib.write_jsonl(sf, scns)
     out = ctx.path("tr_%s.ndjson" % name)
-    argv = [drv, "-out", out, "-seed", str(seed)]
+    sd = ctx.path("drv_%s" % name)
+    os.makedirs(sd, exist_ok=True)
+    argv = [drv, "-out", out, "-seed", str(seed), "-scratch", sd]
     if scns:
         argv += ["-scn", sf]
     if random:
